@@ -574,8 +574,6 @@ func (r *Root) LoadMast(ctx context.Context, config *RemoteConfig) (*Mast, error
 	var link interface{}
 	if r.Link != nil {
 		link = *r.Link
-	} else {
-		link = emptyNodePointer(int(r.BranchFactor))
 	}
 	shrinkSize := uint64(1)
 	for i := 0; i < int(r.Height); i++ {
